@@ -292,6 +292,54 @@ theorem inplace_writer_new_reader {E} (C : Codec E) (fs : FS) (split : Bool) (k 
       exact hpre j
   · simp only [lookupNew, readEntry, hfiles.1 _ (hkey k' hne)]
 
+/-! ## the prefix discipline: in-place writers are survivable with the tolerant reader -/
+
+/-- **Soundness of the weaker checker** `admissibleP`: at every crash point other keys' files are
+    untouched and the entry's file holds its old content or a prefix of the new content. -/
+theorem admissibleP_crash_safe (f : Path) (B : Bytes) (hf : isKeyPath f = true) (fs : FS)
+    (ops : List Op) (ha : admissibleP f B fs ops = true) :
+    ∀ fs' ∈ crashStates fs ops,
+      (∀ p, isKeyPath p = true → p ≠ f → fs'.files p = fs.files p) ∧
+      (fs'.files f = fs.files f ∨ ∃ j, fs'.files f = some (B.take j)) :=
+  invP_crashStates fs f B hf ops fs ⟨fun _ _ _ => rfl, Or.inl rfl⟩ ha
+
+/-- the in-place writer obeys the prefix discipline -/
+theorem writeInplace_admissibleP (fs : FS) (split : Bool) (k : Key) (data : Bytes)
+    (hroot : fs.dirs [] = true) :
+    admissibleP (keyPath split k) data fs (writeInplace split k data) = true := by
+  cases split
+  · simp only [writeInplace, Bool.false_eq_true, if_false, List.nil_append, admissibleP_cons,
+      admissibleP, opOKP, beq_self_eq_true, Bool.true_or, if_true, Bool.true_and, Bool.and_true]
+    simp [FS.step, FS.canStep, keyPath, FS.parent, hroot, files_setFile]
+  · simp only [writeInplace, if_true, List.cons_append, List.nil_append, admissibleP_cons,
+      admissibleP, opOKP, beq_self_eq_true, Bool.true_or, if_true, Bool.true_and, Bool.and_true]
+    simp [FS.step, FS.canStep, keyPath, FS.parent, files_setFile]
+
+/-- **Any writer whose system calls pass `admissibleP`** (in particular: any in-place writer
+    that only ever extends the entry's file towards the complete pickle) **is crash-safe for
+    the tolerant reader**, provided a prefix of the pickle of `v` never loads as a different
+    entry: the later process finds the old entry, the new entry `v`, or nothing (and searches);
+    other entries are untouched.  (Nobody raises: `new_reader_never_raises`.) -/
+theorem prefix_discipline_new_reader {E} (C : Codec E) (fs : FS) (split : Bool) (k : Key) (v : E)
+    (ops : List Op) (hk : hexName k = true)
+    (ha : admissibleP (keyPath split k) (C.ser v) fs ops = true)
+    (hpre : ∀ j, C.parse ((C.ser v).take j) = none ∨ C.parse ((C.ser v).take j) = some v) :
+    ∀ fs' ∈ crashStates fs ops,
+      (lookupNew C fs' split k = lookupNew C fs split k ∨ lookupNew C fs' split k = none ∨
+        lookupNew C fs' split k = some v) ∧
+      (∀ k', hexName k' = true → k' ≠ k → lookupNew C fs' split k' = lookupNew C fs split k') := by
+  intro fs' hm
+  obtain ⟨hother, hself⟩ := admissibleP_crash_safe (keyPath split k) (C.ser v)
+    (isKeyPath_keyPath split k hk) fs ops ha fs' hm
+  refine ⟨?_, fun k' hk' hne => ?_⟩
+  · rcases hself with h | ⟨j, h⟩
+    · left; simp only [lookupNew, readEntry, h]
+    · right
+      simp only [lookupNew, readEntry, h, Option.bind_some]
+      exact hpre j
+  · simp only [lookupNew, readEntry,
+      hother _ (isKeyPath_keyPath split k' hk') (fun e => hne (keyPath_inj split k' k e))]
+
 /-! ## non-vacuity: a concrete codec, directory and keys -/
 
 /-- toy stand-in for pickle: one length byte, then the payload -/
